@@ -575,6 +575,9 @@ class Pools:
                 ds.add_delegations(pd)
                 # pool references
                 for node in pool.get_defined_for():
+                    if node == pool.get_defined_on():
+                        # the definition on that node already says the pool applies there
+                        continue
                     pr = Delegation(atype=self.pool_type, delegation_id=delegation_id,
                                     aformat=DelegationFormat.PoolReference, pool_id=pool.get_pool_id())
                     ds = ret.get(node, None)
